@@ -90,8 +90,8 @@ def shell_types(lmax):
 
 
 SPACE = [
-    ("geometry", ["apart", "coincident", "axis-aligned", "weak-1e-8", "just-above-threshold", "just-below-threshold", "far"]),
-    ("contraction", ["1prim", "2prim", "6prim", "gen-same", "gen-mixed"]),
+    ("geometry", ["apart", "coincident", "axis-aligned", "weak-1e-8", "just-above-threshold", "just-below-threshold", "far", "moderate-3", "moderate-10"]),
+    ("contraction", ["1prim", "2prim", "6prim", "gen-same", "gen-mixed", "2prim-increasing", "6prim-unsorted"]),
     ("conventions", ["horton2", "fchk", "molden", "wfn", "cca", "scr1", "scr2"]),
     ("mode", ["two-bases", "one-basis", "one-basis-5-centers"]),
     ("exponents", [0, 1, 2, 3]),
@@ -108,6 +108,12 @@ def build_shell(icenter, ltype, contraction, expset, which, seed):
         return Shell(icenter, [l], [kind], [pool[0]], [[1.0]])
     if contraction == "2prim":
         return Shell(icenter, [l], [kind], pool[:2], [[0.6], [0.5]])
+    if contraction == "2prim-increasing":  # the most diffuse primitive first (any order is legitimate)
+        return Shell(icenter, [l], [kind], sorted(pool[:2]), [[0.6], [0.5]])
+    if contraction == "6prim-unsorted":
+        ex = sorted(set(pool[:6]))
+        ex = [ex[i] for i in (2, 0, 4, 1, 5, 3)][: len(ex)]
+        return Shell(icenter, [l], [kind], ex, [[0.1 * (i + 1) * (-1) ** (i == 3)] for i in range(len(ex))])
     if contraction == "6prim":
         ex = sorted(set(pool[:6]))
         return Shell(icenter, [l], [kind], ex, [[0.1 * (i + 1) * (-1) ** (i == 3)] for i in range(len(ex))])
@@ -132,6 +138,9 @@ def geometry(name, a0=None, a1=None):
         return np.array([[0.1, -0.2, 0.3], [0.5, 0.2, -0.1]])  # |d| = 0.69
     if name == "axis-aligned":
         return np.array([[0.0, 0.0, 0.0], [0.0, 0.0, 1.1]])
+    if name.startswith("moderate-"):  # diffuse primitives still overlap strongly, tight ones do not
+        r = float(name.split("-")[1])
+        return np.array([[0.1, -0.2, 0.3], [0.1 + 0.48 * r, -0.2 + 0.6 * r, 0.3 + 0.64 * r]])
     return np.array([[0.1, -0.2, 0.3], [60.1, 40.0, -35.0]])
 
 
@@ -252,6 +261,17 @@ def run(ctx):
             if heavy and (case["contraction"] in ("6prim",) or case["mode"] == "one-basis-5-centers") and len(dbe.deviations(SPACE, case)) > 1:
                 continue  # l>=6 with 36 primitive pairs only as single deviations (cap reported)
             jobs.append((t0, t1, case))
+    # primitive order x distance always as a full product: the screening must use the most diffuse primitive wherever it is listed
+    default = {n: m[0] for n, m in SPACE}
+    seen = {repr((t0, t1, sorted(c.items()))) for t0, t1, c in jobs}
+    for t0, t1 in itertools.product(types, repeat=2):
+        if max(t0[0], t1[0]) >= 6:
+            continue
+        for geo in ("moderate-3", "moderate-10"):
+            for con in ("2prim", "2prim-increasing", "6prim", "6prim-unsorted"):
+                case = dict(default, geometry=geo, contraction=con)
+                if repr((t0, t1, sorted(case.items()))) not in seen:
+                    jobs.append((t0, t1, case))
     # heavy jobs first for load balance
     jobs.sort(key=lambda j: -(j[0][0] + 1) ** 2 * (j[1][0] + 1) ** 2)
     pmap(ctx, overlap_worker, jobs, chunk=4 if ctx.thorough else 8)
@@ -260,7 +280,7 @@ def run(ctx):
     ctx.rule = (
         f"(1) 1-D kernel: all 64 (n1,n2)<=7 on the full 9x9x9 grid of (x1,x2,two_at) against Gauss-Hermite quadrature; the kernel is a polynomial of degree <=7 in each of x1, x2, 1/two_at, "
         f"so agreement on 9 points per variable is identity for all reals. (2) every entry of the Cartesian-to-pure tables l<=7 and every Cartesian normalisation n<=7 x 8 exponents. "
-        f"(3) compute_overlap: all ordered pairs of shell types (l<={lmax} Cartesian, 2..{lmax} pure) x deviation-bounded enumeration k<={k} over geometry(7: generic, coincident, axis-aligned, prefactor 1e-8, 3e-15, 3e-16, far) x contraction(5) x conventions(7) x mode(3) x exponent set(4). "
+        f"(3) compute_overlap: all ordered pairs of shell types (l<={lmax} Cartesian, 2..{lmax} pure) x deviation-bounded enumeration k<={k} over geometry(9: generic, coincident, axis-aligned, prefactor 1e-8, 3e-15, 3e-16, far, 3 and 10 bohr apart) x contraction(7, incl. primitives listed in increasing and unsorted order; distance x primitive order also as a full product) x conventions(7) x mode(3) x exponent set(4). "
         "Distinct = (type pair, deviation set)."
     )
     ctx.assumptions += [
